@@ -1,4 +1,16 @@
-(* C13 - Multi-threaded CLI pipelines are correct under every thread schedule. *)
+(* C13 - Multi-threaded CLI pipelines are correct under every thread schedule.
+
+   Models (coq/Model): WriteReg.v (WR_* and LZ4IO_checkWriteOrder), TPool.v (the queue ring, busy count and
+   condition-variable waiter sets of threadpool.c), Pipeline.v (main thread, N compression workers, writer; the four
+   pipelines of lz4io.c; pstep = one scheduler step of one thread, a pick names the thread and the waiter a signal wakes).
+   Every theorem quantifies over ALL schedules (lists of picks) through [run c (init_state c) sched = Some st].
+
+   Proved here:      C13_write_order                       write register, all arrival orders
+                     C13_no_reuse_* / C13_ring_window       decode rings, parametric + generated constants (+ tightness witnesses)
+                     C13_inorder_once, C13_sequential_equiv compression, all N / chunk counts / schedules
+                     C13_tpool_compress_never_full, C13_waiters_homogeneous   (+ instances at the generated depths)
+                     C13_depth1_deadlock                    the lost wake-up at queue depth 1 (witness)
+   Not proved:       C13_no_deadlock_full_statement, C13_terminates_full_statement (kept as Definitions at the end). *)
 From Coq Require Import ZArith List Lia Bool Permutation.
 From LZ4V Require Import Gen.Consts Gen.TPoolSites Model.WriteReg Model.TPool Model.Pipeline
   Proofs.WriteRegProofs Proofs.TPoolProofs Proofs.DecodeRingProofs Proofs.CompressProofs Proofs.NeverFullProofs Proofs.C13Inst.
